@@ -2,8 +2,9 @@
 
 Rules: the grid (num_rows x num_cols, 0 = empty) is to be covered by `num_blocks` blocks; every block
 is a (3, 3) array whose non-zero cells carry the block's number.  Action (block, rotation, row, col):
-rotate the block `rotation` times by 90 degrees (clockwise - the docs do not name the sense, the
-shipped `rotate_block` is clockwise and the model adopts that convention) and put the top-left corner
+rotate the block `rotation` times by 90 degrees (the docs do not name the sense: the model reads the
+convention off the environment's own reaction to one probe placement, see `M._sense`, and then demands
+that mask, placement and reward all follow that one convention) and put the top-left corner
 of the rotated (3, 3) array on grid cell (row, col); row <= num_rows-3 and col <= num_cols-3, so the
 array is always inside the grid.  Legal <=> the block is not placed yet and its non-zero cells fall
 on empty cells.  An illegal action is ignored (grid and placed_blocks unchanged) but still counts as a
@@ -24,9 +25,9 @@ STATS = {"cover_found": 0, "cover_inconclusive": 0, "cover_nodes": 0}
 COVER_BUDGET = 200_000
 
 
-def rot(block, k):
-    """k clockwise quarter turns."""
-    return np.rot90(np.asarray(block), -int(k) % 4)
+def rot(block, k, cw=True):
+    """k quarter turns, clockwise (cw=True) or anticlockwise."""
+    return np.rot90(np.asarray(block), (-int(k) if cw else int(k)) % 4)
 
 
 def block_id(block):
@@ -63,6 +64,35 @@ class M(Model):
         if rw is None:
             rw = "block" if type(env.reward_fn).__name__ == "BlockDenseReward" else "cell"
         self.reward_kind = rw
+        self._cw = None
+
+    def _sense(self):
+        """Rotation sense of the action's `rotation` component.  docs/environments/flat_pack.md and `rotate_block`
+        only say "number of 90 degree rotations ({0, 90, 180, 270} degrees)": clockwise and anticlockwise are both
+        valid readings, so neither is an oracle.  The convention is read off the env once (one probe placement of a
+        block whose 90 and 270 degree images differ, on an empty grid); everything else must then be consistent
+        with it.  Falls back to clockwise when the probe is inconclusive (then any inconsistency is reported)."""
+        if self._cw is None:
+            self._cw = True
+            try:
+                from vf import envs, episodes
+
+                for kw in range(8):
+                    st, _ = self.b.reset(envs.make_key((kw, 20231)))
+                    blocks = np.asarray(episodes.host(st).blocks)
+                    cand = [i for i in range(blocks.shape[0])
+                            if not np.array_equal(rot(blocks[i], 1, True) != 0, rot(blocks[i], 1, False) != 0)]
+                    if not cand:
+                        continue
+                    i = cand[0]
+                    s2, _ = self.b.step(st, np.asarray([i, 1, 0, 0], self.b.act_dtype))
+                    g = np.asarray(episodes.host(s2).grid)[:3, :3] != 0
+                    if np.array_equal(g, rot(blocks[i], 1, False) != 0):
+                        self._cw = False
+                    break
+            except Exception:  # noqa: BLE001 - calibration is best effort, the default stands
+                pass
+        return self._cw
 
     # ------------------------------------------------------------------------------------ helpers
     def _legal_grid(self, grid, blocks, placed):
@@ -76,7 +106,7 @@ class M(Model):
             if placed[i]:
                 continue
             for k in range(4):
-                pat = rot(blocks[i], k) != 0
+                pat = rot(blocks[i], k, self._sense()) != 0
                 out[i, k] = ~(win & pat[None, None]).any(axis=(2, 3))
         return out
 
@@ -90,7 +120,7 @@ class M(Model):
             return False
         if bool(np.asarray(s.placed_blocks)[i]):
             return False
-        pat = rot(np.asarray(s.blocks)[i], k) != 0
+        pat = rot(np.asarray(s.blocks)[i], k, self._sense()) != 0
         return not (np.asarray(s.grid)[r:r + 3, c:c + 3][pat] != 0).any()
 
     # ---------------------------------------------------------------------------------- C04 / C05
@@ -110,9 +140,10 @@ class M(Model):
             out.append(("ignored (illegal) placement changed placed_blocks", ""))
         if not np.array_equal(np.asarray(s.blocks), np.asarray(s2.blocks)):
             out.append(("ignored (illegal) placement changed the blocks", ""))
-        want_last = int(s.step_count) + 1 >= self.N
-        if (int(ts2.step_type) == LAST) != want_last:
-            out.append(("episode end after an ignored placement does not follow the num_blocks step rule",
+        # audit: C05 says "the move is ignored and the episode continues"; only an early end is a C05 matter (a missing
+        # LAST at the num_blocks-th step is the termination rule: C09 / C11)
+        if int(ts2.step_type) == LAST and int(s.step_count) + 1 < self.N:
+            out.append(("ignored placement ended the episode before num_blocks steps",
                         f"step_count {int(s.step_count)} -> step_type {int(ts2.step_type)}, num_blocks {self.N}"))
         if float(np.asarray(ts2.reward)) != 0.0:
             out.append(("ignored (illegal) placement was rewarded", f"reward={float(np.asarray(ts2.reward))}"))
@@ -179,7 +210,7 @@ class M(Model):
         blocks = np.asarray(s.blocks)
         reward = 0.0
         if self._is_legal(s, a):
-            blk = rot(blocks[i], k).astype(np.int64)
+            blk = rot(blocks[i], k, self._sense()).astype(np.int64)
             grid[r:r + 3, c:c + 3] += blk
             placed[i] = True
             reward = (1.0 / self.N) if self.reward_kind == "block" else float((blk != 0).sum()) / float(grid.size)
@@ -191,11 +222,13 @@ class M(Model):
         return {"state": st, "reward": reward, "last": last}
 
     # ---------------------------------------------------------------------------------------- C10
-    def _exact_cover(self, blocks, budget=None, occ0=0, used0=None):
+    def _exact_cover(self, blocks, budget=None, occ0=0, used0=None, cw=True):
         """Bounded backtracking over the placements the ACTION SPACE can express (block, rotation,
         top-left corner of the rotated (3, 3) array at row <= R-3, col <= C-3): always fill the first
         empty cell (row-major) with an unused block one of whose placements has its first cell there.
-        -> (True, actions) / (False, None) / (None, None) when the node budget is exhausted."""
+        -> (True, actions) / (False, None) / (None, None) when the node budget is exhausted.
+        `cw` only decides how the rotation component of the returned actions is labelled (the set of placements is
+        the same in both senses)."""
         R, C = self.R, self.C
         budget = (COVER_BUDGET if len(blocks) <= 9 else COVER_BUDGET // 5) if budget is None else budget
         n = len(blocks)
@@ -208,7 +241,7 @@ class M(Model):
         for i in range(n):
             seen = set()
             for k in range(4):
-                p = rot(blocks[i], k) != 0
+                p = rot(blocks[i], k, cw) != 0
                 rc = np.argwhere(p)
                 if rc.size == 0:
                     continue
@@ -259,7 +292,7 @@ class M(Model):
 
     def solution_actions(self, s0):
         """Actions (block, rotation, row, col) that tile the grid from the reset state, or None."""
-        res, sol = self._exact_cover(np.asarray(s0.blocks).astype(np.int64))
+        res, sol = self._exact_cover(np.asarray(s0.blocks).astype(np.int64), cw=self._sense())
         return [np.asarray(a, np.int32) for a in sol] if res else None
 
     def solve_action(self, s, r=0):
@@ -280,12 +313,12 @@ class M(Model):
         if key not in self._plans:
             if len(self._plans) > 4096:
                 self._plans.clear()
-            res, sol = self._exact_cover(blocks, budget=COVER_BUDGET // 5, occ0=occ, used0=placed)
+            res, sol = self._exact_cover(blocks, budget=COVER_BUDGET // 5, occ0=occ, used0=placed, cw=self._sense())
             self._plans[key] = sol if res else None
             if res:                       # remember the continuation for the states along the plan
                 o, u = occ, placed.copy()
                 for j, (i, k, rr, cc) in enumerate(sol[:-1]):
-                    for dr, dc in np.argwhere(rot(blocks[i], k) != 0).tolist():
+                    for dr, dc in np.argwhere(rot(blocks[i], k, self._sense()) != 0).tolist():
                         o |= 1 << ((rr + dr) * self.C + (cc + dc))
                     u = u.copy()
                     u[i] = True
@@ -322,9 +355,7 @@ class M(Model):
         total = int((blocks != 0).sum())
         if total != self.R * self.C:
             out.append(("block cells do not sum to the grid area", f"{total} vs {self.R * self.C}"))
-        am = np.asarray(s0.action_mask)
-        if am.shape != (self.N, 4, self.R - 2, self.C - 2):
-            out.append(("action_mask has the wrong shape", str(am.shape)))
+        # audit: the shape of action_mask is spec conformance (C01), not an instance invariant - removed
         if out:
             return out
         res, _ = self._exact_cover(blocks)
